@@ -80,7 +80,6 @@ var TypeObjectInitHash = NewStructType([]*StructElement{
 	NewStructElement(newOptionalType3(keyFunctions), TypeFunctions),
 	NewStructElement(newOptionalType3(keyEquality), TypeEquality),
 	NewStructElement(newOptionalType3(keyEqualityIncludeType), DefaultBooleanType()),
-	NewStructElement(newOptionalType3(keyEquality), TypeEquality),
 	NewStructElement(newOptionalType3(keySerialization), TypeMemberNames),
 	NewStructElement(newOptionalType3(keyAnnotations), typeAnnotations),
 })
@@ -529,6 +528,7 @@ func (t *objectType) InitFromHash(c px.Context, initHash px.OrderedMap) {
 		equality = []string{string(es)}
 	} else if ea, ok := eq.(*Array); ok {
 		equality = make([]string, ea.Len())
+		ea.EachWithIndex(func(e px.Value, i int) { equality[i] = e.String() })
 	} else {
 		equality = nil
 	}
